@@ -114,7 +114,9 @@ def get_mod_apply_selection_choice(
     # Process incompatibility constraints
     confirmed_start_nodes = start_nodes | {target_option_node}
     try:
-        removed_nodes |= get_mod_nodes_remove_incompatibilities(graph, confirmed_start_nodes, removed_edges)
+        # On a copy: an attempt that fails (IncompatibilityError) has already extended the set in place, which would cut
+        # confirmed nodes loose from their deriving node and hide the incompatibility it reports
+        removed_nodes |= get_mod_nodes_remove_incompatibilities(graph, confirmed_start_nodes, set(removed_edges))
     except IncompatibilityError as e:
         removed_nodes |= e.removed_nodes
         added_edges |= e.edges
